@@ -845,7 +845,7 @@ class ImportPattern(Pattern):
 
     def __init__(self):
         super().__init__(
-            r'^use +(?P<module>\w+)(?: *, *(?P<only>only *:)?'  # The use statement including an optional ``only``
+            r'^use(?:(?: *, *(?:non_)?intrinsic)? *:: *| +)(?P<module>\w+)(?: *, *(?P<only>only *:)?'  # The use statement including an optional ``only``
             r'(?P<imports>(?: *\w+\b *(?:=> *\w+|\(.*?\))? *,?)+))?',  # The optional list of names (w/ renames, ops)
             re.IGNORECASE
         )
@@ -964,7 +964,7 @@ class CallPattern(Pattern):
     def __init__(self):
         super().__init__(
             r'^(?P<conditional>if[ \t]*\(.*?\)[ \t]*)?'  # Optional inline-conditional preceeding the call
-            r'call',  # Call keyword
+            r'call[ \t]+',  # Call keyword (followed by a blank, unlike identifiers such as ``call_count``)
             re.IGNORECASE
         )
 
